@@ -32,69 +32,9 @@ def setup():
 # ------------------------------------------------------------------------------------------ generator
 def dyndep_scenario(rng, sid, static=False, on_rule=False):
     g = gen.Gen(random.Random(rng.randint(0, 2 ** 60)), size=rng.randint(1, 4),
-                feat=dict(deps=0.3, phony=0.1, restat=0.2, generator=0.0, vals=0.1, rsp=0.0, chain=0.7, pools=0.2))
+                feat=dict(deps=0.3, phony=0.1, restat=0.2, generator=0.0, vals=0.1, rsp=0.0, chain=0.7, pools=0.2, dyndep=0.0))
     sc = g.scenario(sid)
-    r = rng
-    leafs = []
-    for i in range(r.randint(1, 3)):
-        sc["sources"]["m%d.h" % i] = "// leaf %d\n" % i
-        leafs.append("m%d.h" % i)
-    base_outs = [s["outs"][0] for s in sc["stmts"] if s["kind"] == "cmd"]
-    nserved = r.randint(1, 4)
-    dd = "dd/x.dd"
-    served, provided = [], []
-    for i in range(nserved):
-        src = "d%d.src" % i
-        out0 = "o/d%d.o" % i
-        lines = []
-        for h in leafs:
-            if r.random() < 0.5:
-                lines.append("#include " + h)
-        for b in base_outs:
-            if r.random() < 0.3:
-                lines.append("#include " + b)
-        for p in provided:
-            if r.random() < 0.5:
-                lines.append("#include " + p)
-        if r.random() < 0.6:
-            mod = "o/d%d.mod" % i
-            lines.append("#provides " + mod)
-            provided.append(mod)
-        if r.random() < 0.25:
-            lines.append("#ddrestat")
-        sc["sources"][src] = "\n".join(lines + ["// dyndep-served source %d" % i]) + "\n"
-        st = St("d%d" % i, [out0], ins=[src], dd=True, dyndep=dd, dyndep_on_rule=on_rule)
-        if r.random() < 0.5:
-            st["oins"] = [dd]
-        else:
-            st["iins"] = [dd]
-        extra = [b for b in base_outs if r.random() < 0.2]
-        st["ins"] += extra
-        # the classic pattern: a generated header kept order-only in the manifest and named precisely by the dyndep file
-        for ln in lines:
-            if ln.startswith("#include ") and ln[9:] in base_outs and ln[9:] not in st["ins"] and r.random() < 0.4:
-                st["oins"].append(ln[9:])
-        served.append(st)
-    scan = St("scan", [dd], ins=["d%d.src" % i for i in range(nserved)], kind="scan",
-              serves=[[s["outs"][0], s["ins"][0]] for s in served])
-    if static:
-        # pre-existing dyndep file: a source, written from the directives as they are now
-        sc["sources"][dd] = dyndep_text(scan, sc["sources"])
-        sc["static_dd"] = {dd: scan["serves"]}
-    else:
-        sc["stmts"].append(scan)
-    sc["stmts"] += served
-    # plain consumers of served outputs
-    for i, s in enumerate(served):
-        if r.random() < 0.5:
-            c = St("u%d" % i, ["o/u%d.o" % i], ins=[s["outs"][0]])
-            if r.random() < 0.3:
-                c["restat"] = True
-            sc["stmts"].append(c)
-    if on_rule:
-        # statements without bindings of their own in the same file (scope sharing, F10 family)
-        pass
-    return sc
+    return g.add_dyndep(sc, static=static, on_rule=on_rule)
 
 
 def inlined_twin(sc):
